@@ -182,8 +182,8 @@ func crossImportCase(col *Collector, rng *rand.Rand, fa, fb string, emptyMain, v
 	dir := newScratchDir("c16x")
 	defer os.RemoveAll(dir)
 	a := map[string]interface{}{
-		"import": []interface{}{"other." + fb},
-		"tasks":  map[string]interface{}{"ta": map[string]interface{}{"command": []interface{}{"echo a"}}},
+		"import":    []interface{}{"other." + fb},
+		"tasks":     map[string]interface{}{"ta": map[string]interface{}{"command": []interface{}{"echo a"}}},
 		"pipelines": map[string]interface{}{"pa": []interface{}{map[string]interface{}{"task": "ta"}}},
 	}
 	b := map[string]interface{}{
